@@ -429,6 +429,23 @@ pub fn run_case(case: &J) -> Vec<J> {
                     log(s);
                 }
             }
+            // zero-argument callables whose call result is recorded before and after freezing
+            let call_names: Vec<String> = unit
+                .get("snapshot_calls")
+                .and_then(|a| a.as_array())
+                .map(|a| a.iter().filter_map(|x| x.as_str().map(|s| s.to_owned())).collect())
+                .unwrap_or_default();
+            for n in &call_names {
+                if let Some(f) = module.get(n) {
+                    let mut e = Evaluator::new(&module);
+                    e.set_loader(&loader);
+                    e.set_print_handler(&printer);
+                    match e.eval_function(f, &[], &[]) {
+                        Ok(v) => log(json!(["precall", n, "ok", canon::encode(v, false), v.to_repr()])),
+                        Err(err) => log(json!(["precall", n, "err", natives::err_head(&err)])),
+                    }
+                }
+            }
             if freeze {
                 match module.freeze_named(FrozenHeapName::user(&file)) {
                     Ok(fm) => {
@@ -459,6 +476,20 @@ pub fn run_case(case: &J) -> Vec<J> {
                                         Err(e) => log(json!(["call", fname, "err", err_json(&e, cfg.full_errors), depth, ticks])),
                                     }
                                 }),
+                            }
+                        }
+                        for n in &call_names {
+                            if let Ok(of) = fm.get_owned(n) {
+                                Module::with_temp_heap(|m2| {
+                                    let f = of.add_to_heap(m2.heap());
+                                    let mut e2 = Evaluator::new(&m2);
+                                    e2.set_loader(&loader);
+                                    e2.set_print_handler(&printer);
+                                    match e2.eval_function(f, &[], &[]) {
+                                        Ok(v) => log(json!(["postcall", n, "ok", canon::encode(v, false), v.to_repr()])),
+                                        Err(err) => log(json!(["postcall", n, "err", natives::err_head(&err)])),
+                                    }
+                                });
                             }
                         }
                         for n in &snap_names {
